@@ -388,6 +388,20 @@ class Gen:
             return None
         ns, p = r.choice(cands)
         op = {'op': 'rm_directory', '%s_path' % ns: p}
+        x = r.random()
+        if x < 0.3:
+            # one call for directories of several namespaces (they need not be the "same" directory)
+            for ns2 in ('iso', 'joliet', 'udf'):
+                more = [q for n2, q in cands if n2 == ns2]
+                if ns2 != ns and more and r.random() < 0.7:
+                    op['%s_path' % ns2] = r.choice(more)
+        elif x < 0.4:
+            # ... one of which still has entries: the whole call has to be refused
+            for ns2 in ('joliet', 'udf', 'iso'):
+                full = [q for q, n in model.ns[ns2].items() if n.kind == 'dir' and q != '/' and model.children(ns2, q)]
+                if ns2 != ns and full:
+                    op['%s_path' % ns2] = r.choice(full)
+                    break
         return op
 
     def symlink_target(self):
